@@ -192,6 +192,12 @@ def run(chk, repo, tier):
                     # subject) - a list built in another way pairs the fields correctly, what it holds is not decided here
                     sums[-1] = True if is_app(ka[1], 'call:field._merge_slices') else None
                     det = f'out[{fmt(key)[:120]}] += {fmt(rhs)}'
+                elif ra is not None and ra[0] == 'attr' and ra[2] == 'data' and ra[1][0] == 'idx' and ra[1][1] == ('sym', 'fields') \
+                        and key is not None and ra[1] in nf.value_atoms(key):
+                    # the slice is worked out from the field that is being added (a window computed per field): field k goes
+                    # where its own extent says; what that window is is the subject of C06-b
+                    sums[-1] = None
+                    det = f'out[<window of fields[k]>] += {fmt(rhs)}'
                 root = e.target.single_atom() if isinstance(e.target, Poly) else None
                 t = e.target
                 while isinstance(t, Poly) and t.single_atom() is not None and is_app(t.single_atom(), 'setitem'):
